@@ -23,6 +23,7 @@ class VLoop(asyncio.BaseEventLoop):
         self.steps = 0
         self.io_choices = 0
         self.state_hook = None
+        self.io_budgeted = False       # True: completing an I/O ahead of the default order costs one deviation
 
     # -- BaseEventLoop plumbing --------------------------------------------------
     def time(self):
@@ -69,7 +70,7 @@ class VLoop(asyncio.BaseEventLoop):
             opts = (1 if has_ready else 0) + nio
             if self.state_hook is not None:
                 self.state_hook(self)
-            c = self._chooser.choose('io-order', opts, tuple([0] * opts)) if opts > 1 else 0
+            c = self._chooser.choose('io-order', opts, tuple([0] + [1] * (opts - 1)) if self.io_budgeted else 0) if opts > 1 else 0
             if has_ready:
                 c -= 1
             if c >= 0:
